@@ -27,15 +27,31 @@
 (* collection at 60 s*j of virtual time).                                  *)
 (*                                                                         *)
 (* A peer reaches the relay over LINKS (connections): each has a remote    *)
-(* address that is an IP, "relay" (a /p2p-circuit address: the peer came   *)
-(* through another relay, the connection is limited) or "noip".            *)
+(* address that is an IP, "noip", or a /p2p-circuit address ("relay",       *)
+(* "relayu": the peer came through another relay).  TWO attributes of a    *)
+(* connection are kept apart because code can confuse them:                *)
+(*   via_relay = the remote address is a /p2p-circuit address  (ViaRelay)  *)
+(*   limited   = Conn.Stat().Limited                           (LinkLimited)*)
+(* relayed+limited is a connection through an ordinary relay, relayed+     *)
+(* unlimited one through a relay that imposes no limits (the circuit       *)
+(* client flags a connection Limited only when the front relay announced   *)
+(* a limit), direct+unlimited the normal case; direct+limited is           *)
+(* unreachable (only the circuit transport sets Limited) and not modelled. *)
+(* The STATEMENT ("neither party reached the relay through another relay") *)
+(* is keyed on via_relay only.  The relay's own checks of the requester    *)
+(* use the address (via_relay); the swarm's Connectedness (reservation     *)
+(* dropped on disconnect) and its choice of the connection for the stop    *)
+(* stream use limited - so a destination whose direct connection closed    *)
+(* but which keeps a relayed+unlimited one keeps its reservation and is    *)
+(* connected to over that relayed connection (DestinationDirect fails).    *)
 (***************************************************************************)
 EXTENDS Integers, Sequences, FiniteSets, TLC
 
 CONSTANTS
   Peers, Links,
   LinkPeer,      \* [Links -> Peers]
-  LinkAddr,      \* [Links -> IPs \cup {"relay", "noip"}]
+  LinkAddr,      \* [Links -> IPs \cup {"relay", "relayu", "noip"}]
+  LinkLimited,   \* [Links -> BOOLEAN]: Conn.Stat().Limited
   ASNOf,         \* [IPs -> Nat], 0 = no ASN known (every IPv4 address)
   MaxRes, MaxPerIP, MaxPerASN,   \* Resources.MaxReservations / PerIP / PerASN
   MaxCirc,       \* Resources.MaxCircuits
@@ -54,7 +70,8 @@ CONSTANTS
                  \* "quietreserve": reservations only while no attempt is in flight;
                  \* "probe": a connect that passes every check is failed at the stop handshake write
                  \* (the instances about reservations use connects only to observe reservations)
-  Static         \* links that are up from the start and never go down
+  Static,        \* links that are up from the start and never go down
+  Off            \* links that never come up (bound for the bigger instances)
 
 None == -9
 NoEntry == [rem |-> None, ip |-> "-"]
@@ -81,10 +98,16 @@ VARIABLES
 vars == <<up, closed, ph, rsvp, cons, circ, tagR, tagH, svc, att, gl, op>>
 View == <<up, closed, ph, rsvp, cons, circ, tagR, tagH, svc, att, gl>>
 
-IsIP(a) == a \notin {"relay", "noip", "-"}
-Direct(l) == LinkAddr[l] # "relay"
+RelayAddrs == {"relay", "relayu"}
+IsIP(a) == a \notin RelayAddrs \cup {"noip", "-"}
+ViaRelay(l) == LinkAddr[l] \in RelayAddrs
+Direct(l) == ~ViaRelay(l)
+ASSUME \A l \in Links : LinkLimited[l] => ViaRelay(l)      \* direct+limited does not exist
 LinksOf(p, u) == {l \in u : LinkPeer[l] = p}
-DirectUp(p, u) == {l \in u : LinkPeer[l] = p /\ Direct(l)}
+\* what the swarm counts for Connectedness = Connected and accepts for a new stream: not limited
+UnlimUp(p, u) == {l \in u : LinkPeer[l] = p /\ ~LinkLimited[l]}
+\* the swarm's preference among them (isBetterConn): direct before relayed
+BestUp(p, u) == LET d == {l \in UnlimUp(p, u) : Direct(l)} IN IF d # {} THEN d ELSE UnlimUp(p, u)
 Max(a, b) == IF a > b THEN a ELSE b
 Min(a, b) == IF a < b THEN a ELSE b
 
@@ -135,7 +158,7 @@ Init ==
 (* connections come and go                                                 *)
 LinkUp(l) ==
   /\ "updown" \in Features
-  /\ l \notin up
+  /\ l \notin up /\ l \notin Off
   /\ up' = up \cup {l}
   /\ op' = [name |-> "up", l |-> l]
   /\ UNCHANGED <<closed, ph, rsvp, cons, circ, tagR, tagH, svc, att, gl>>
@@ -155,7 +178,7 @@ LinkDown(l) ==
          u2 == up \ {l}
          E == {c \in Busy : att[c].via = l \/ (att[c].st = "open" /\ att[c].src = l)}
          A == {c \in Busy \ E : att[c].st = "hs" /\ att[c].src = l /\ att[c].ab # "conn"}
-         drop == ~closed /\ DirectUp(p, u2) = {}
+         drop == ~closed /\ UnlimUp(p, u2) = {}
          gone == LinksOf(p, u2) = {}
          th == TagHAfter(E)
          s1 == SvcAfter(E)
@@ -178,7 +201,7 @@ ReserveWhy(l) ==
   LET p == LinkPeer[l]
       a == LinkAddr[l]
       c1 == ConsDrop(ConsClean(cons), p)      \* the other peers' unexpired entries
-  IN IF a = "relay" THEN "relayed"
+  IN IF ViaRelay(l) THEN "relayed"
      ELSE IF l \in DenyReserve THEN "acl"
      ELSE IF closed THEN "closed"
      ELSE IF ConsTotal(c1) >= MaxRes THEN "total"
@@ -226,13 +249,13 @@ ConnectExit(l, d, fault) ==
   IN IF fault \in {"h_svc", "h_mem", "h_bad"} THEN fault
      ELSE IF closed THEN "span"
      ELSE IF fault = "mem" THEN "mem"
-     ELSE IF LinkAddr[l] = "relay" THEN "relayed"
+     ELSE IF ViaRelay(l) THEN "relayed"
      ELSE IF fault = "badpeer" THEN "badpeer"
      ELSE IF <<l, d>> \in DenyConnect THEN "acl"
      ELSE IF rsvp[d] = None THEN "norsvp"
      ELSE IF circ[s] >= MaxCirc THEN "srccap"
      ELSE IF circ[d] >= MaxCirc THEN "dstcap"
-     ELSE IF fault = "open" \/ DirectUp(d, up) = {} THEN "open"
+     ELSE IF fault = "open" \/ UnlimUp(d, up) = {} THEN "open"
      ELSE IF fault \in {"svc", "smem", "swrite"} THEN fault
      ELSE IF "probe" \in Features THEN "swrite"
      ELSE "hs"
@@ -256,7 +279,7 @@ ConnectBegin(l, d, fault, via) ==
      IN /\ fault # "none" => e = fault          \* a fault is scheduled only where it is the exit taken
         \* exits taken before the destination is looked at: one destination is enough
         /\ fault \in {"h_svc", "h_mem", "h_bad", "mem", "badpeer"} => d = (CHOOSE x \in Peers \ {s} : TRUE)
-        /\ IF e \in {"svc", "smem", "swrite", "hs"} THEN via \in DirectUp(d, up) ELSE via = "-"
+        /\ IF e \in {"svc", "smem", "swrite", "hs"} THEN via \in BestUp(d, up) ELSE via = "-"
         /\ IF e = "hs"
            THEN /\ circ' = [circ EXCEPT ![s] = @ + 1, ![d] = @ + 1]
                 \* addConn tags only on the transition 0 -> 1 (a peer the conn manager forgot while an
@@ -425,7 +448,7 @@ LiveAreCounted == \A p \in Peers : Live(p) => cons[p].rem = rsvp[p] /\ cons[p].i
 \* the ACL accepts, and is gone at the first collection past its expiry
 ReservationSound ==
   \A p \in Peers : rsvp[p] # None =>
-     /\ DirectUp(p, up) # {}
+     /\ UnlimUp(p, up) # {}
      /\ gl[p] # "-" /\ Direct(gl[p]) /\ gl[p] \notin DenyReserve /\ IsIP(LinkAddr[gl[p]])
      /\ rsvp[p] >= -ph
      /\ ~closed
@@ -433,7 +456,7 @@ ReservationSound ==
 \* circuits and attempts past the checks: neither party relayed, ACL, both links up
 CircuitSound ==
   \A c \in Busy :
-     /\ Direct(att[c].src) /\ Direct(att[c].via)
+     /\ Direct(att[c].src) /\ ~LinkLimited[att[c].via]
      /\ <<att[c].src, att[c].dst>> \notin DenyConnect
      /\ (att[c].ab # "conn" => att[c].src \in up) /\ att[c].via \in up /\ LinkPeer[att[c].via] = att[c].dst
      /\ LinkPeer[att[c].src] # att[c].dst
@@ -461,8 +484,13 @@ HandshakeBounded == \A c \in Slots : att[c].st = "hs" => att[c].t >= 1 /\ att[c]
 ConnectOnlyIfAllowed ==
   [][op'.name = "connect" /\ op'.exit = "hs" =>
        /\ op'.may
-       /\ rsvp[op'.d] # None /\ Direct(op'.l) /\ Direct(op'.via)
+       /\ rsvp[op'.d] # None /\ Direct(op'.l)
        /\ circ[LinkPeer[op'.l]] < MaxCirc /\ circ[op'.d] < MaxCirc]_vars
+\* the destination is not reached through another relay either.
+\* EXPECTED TO FAIL where a peer that can hold a reservation has a relayed+unlimited connection: the
+\* reservation survives the loss of the direct connection (Connectedness stays Connected) and the stop
+\* stream is opened over the relayed connection.
+DestinationDirect == [][op'.name = "connect" /\ op'.via # "-" => Direct(op'.via)]_vars
 GrantOnlyIfAllowed ==
   [][op'.name = "reserve" /\ op'.why = "ok" =>
        /\ Direct(op'.l) /\ op'.l \notin DenyReserve /\ ~closed
